@@ -219,6 +219,84 @@ def _seq(draw):
     return {"system": name, "ops": ops}
 
 
+GEN = {
+    # GeneralThermodynamics objects with two phases that both carry mobility data: the `phase` keyword of the diffusivity queries
+    "fecrni": {"phases": ["FCC_A1", "BCC_A2"], "x": [(0.1, 0.3), (0.05, 0.3)], "T": (1150.0, 1500.0)},
+    "fecrni_bccfirst": {"phases": ["BCC_A2", "FCC_A1"], "x": [(0.1, 0.3), (0.05, 0.3)], "T": (1150.0, 1500.0)},
+    "fecrni_rev": {"phases": ["FCC_A1", "BCC_A2"], "x": [(0.05, 0.3), (0.1, 0.3)], "T": (1150.0, 1500.0)},       # elements FE, NI, CR
+}
+
+
+def check_phase_sequence(case):
+    """Diffusivity queries with the `phase` keyword (default None = first listed phase) and removeCache on/off, on an object
+    with two mobility phases: every answer equals that of a cache-free object asked the same single question."""
+    out = Out()
+    cfg = GEN[case["system"]]
+    W = realdb.get(case["system"])
+    REF = realdb.get(case["system"] + "#ref")
+    so = sys.stdout
+    sys.stdout = io.StringIO()
+    kept_other = False
+    judged_after = False
+    try:
+        W.clearCache()
+        for k, op in enumerate(case["ops"]):
+            if op["kind"] == "clear":
+                W.clearCache()
+                kept_other = False
+                continue
+            x = np.array(op["x"], dtype=float)
+            T = np.array(op["T"], dtype=float)
+            n = len(T)
+            ph = op["phase"]
+            rc = op["removeCache"]
+            xarg = x.copy() if n > 1 else x[0].copy()
+            Targ = T.copy() if n > 1 else float(T[0])
+            keep = [np.array(xarg).copy(), np.array(Targ).copy()]
+            name = "getInterdiffusivity" if op["kind"] == "D" else "getTracerDiffusivity"
+            kw = {} if ph is None else {"phase": ph}
+            a = np.asarray(getattr(W, name)(xarg, Targ, removeCache=rc, **kw), dtype=float)
+            if not (np.array_equal(np.array(xarg), keep[0]) and np.array_equal(np.array(Targ), keep[1])):
+                out.fail("argument_modified", "op %d: %s modified its arguments" % (k, name))
+            for i in range(n):
+                REF.clearCache()
+                r = np.asarray(getattr(REF, name)(x[i].copy(), float(T[i]), removeCache=True, **kw), dtype=float)
+                ai = a[i] if n > 1 else a
+                if not _same(ai, r, 1e-6, 1e-6 * float(np.max(np.abs(r))) if op["kind"] == "D" else 0.0):
+                    out.fail("diffusivity_history_dependent", "%s op %d (%s, phase=%r, removeCache=%s, element %d of %d) after %s: %r vs cache-free %r"
+                             % (case["system"], k, name, ph, rc, i, n, [(o["kind"], o.get("phase"), o.get("removeCache")) for o in case["ops"][:k]], np.asarray(ai).tolist(), r.tolist()), removeCache=bool(rc))
+            if kept_other:
+                judged_after = True
+            if not rc and ph is not None and ph != cfg["phases"][0]:
+                kept_other = True
+            out.label("op_%s_%s" % (op["kind"], "default" if ph is None else "matrix" if ph == cfg["phases"][0] else "other"))
+    finally:
+        sys.stdout = so
+    out.label(case["system"])
+    out.nt(judged_after)
+    return out
+
+
+@st.composite
+def _phase_seq(draw):
+    name = draw(st.sampled_from(sorted(GEN)))
+    cfg = GEN[name]
+    base = [draw(st.floats(lo, hi)) for lo, hi in cfg["x"]]
+    T0 = draw(st.floats(*cfg["T"]))
+    ops = []
+    for _ in range(draw(st.integers(3, 7))):
+        kind = draw(st.sampled_from(["D", "D", "D", "Dt", "Dt", "Dt", "clear"]))
+        if kind == "clear":
+            ops.append({"kind": "clear"})
+            continue
+        n = draw(st.sampled_from([1, 1, 1, 2, 3]))
+        jump = draw(st.sampled_from([0.0, 0.0, 0.0, 0.004, 1.0, 40.0, -80.0]))
+        Ts = [float(np.clip(T0 + jump + 5.0 * i, cfg["T"][0], cfg["T"][1])) for i in range(n)]
+        xs = [[float(np.clip(b * draw(st.sampled_from([1.0, 1.0, 1.0, 0.8, 1.2, 1.0 + 5e-6])), lo, hi)) for b, (lo, hi) in zip(base, cfg["x"])] for _ in range(n)]
+        ops.append({"kind": kind, "x": xs, "T": Ts, "phase": draw(st.sampled_from([None, None, cfg["phases"][0], cfg["phases"][1], cfg["phases"][1]])), "removeCache": draw(st.sampled_from([False, False, True]))})
+    return {"system": name, "ops": ops}
+
+
 def pred_gamma_prime_warm(case, v):
     """Order/disorder precipitate (Ni-Cr-Al gamma prime), tangent driving force with the cached composition sets retained:
     after a composition/temperature jump the warm-started solver can land on a different branch than a cold start."""
@@ -250,6 +328,9 @@ def _gp_sampling_seq(draw):
 
 def clauses():
     return [
+        Clause("diffusivity_phase_sequences", _phase_seq, check_phase_sequence, quick=60, thorough=1500, shrink=False,
+               rule="generator: 2-7 interdiffusivity / tracer-diffusivity queries (plus clearCache) on Fe-Cr-Ni objects with two mobility phases (fcc and bcc, either listed first, two element orders; the Ni-Cr-Al database has mobilities for fcc only): phase keyword absent / matrix / second phase, removeCache on/off, scalar or array arguments, repeated states and temperature changes 0.004-80 K; "
+                    "oracle: every answer (and array element) equals that of a second object asked the same single question with its caches discarded; arguments unchanged; non-trivial: a query judged after a second-phase query that kept its cache"),
         Clause("gamma_prime_sampling_retained", _gp_sampling_seq, check_sequence, quick=24, thorough=400, shrink=False,
                rule="generator: 2-5 driving-force queries with the 'sampling' method on Ni-Cr-Al gamma prime at independent random compositions and temperatures 950-1350 K (two-phase and undersaturated), sample cache retained between them (3 in 4); "
                     "oracle: each answer equals that of a cache-free object (5e-2 / 1.5 J/mol), repeats agree; non-trivial: >= 2 queries with a temperature jump"),
